@@ -1,5 +1,6 @@
 import Scion.Model.Epic
 import Scion.Gen.Epic
+import Scion.Proofs.R2EpicInput
 /-! C13 — EPIC packets need fresh timestamps and valid hop validation fields.
     Theorems about `Scion.Epic.process` (model of `processEPIC`) for every key/MAC function, PRF, clock
     value and packet.  The disposition of the embedded SCION processing is the parameter `inner`. -/
@@ -145,6 +146,22 @@ theorem validated_spec (localIA : Nat) (mac : Mac) (p : Pkt) (v : Validated)
                 rw [hp] at h3
                 simpa using h3
               · split <;> rfl
+
+/-- **Tamper evidence of the MAC input.** For a PRF that is injective in its input (the modelling
+    assumption for the untruncated CBC-MAC; e.g. `fun _ m => m` satisfies it), two packets validated with
+    the same hop MAC produce the same EPIC MAC only if they agree on the info-field timestamp, the packet
+    id (timestamp and counter), the source ISD-AS, the source host address and the payload length:
+    changing any of them changes the MAC. (The 32-bit truncation to the HVF is outside the model.) -/
+theorem epic_mac_binds_fields (prf : Prf) (hinj : ∀ k a b, prf k a = prf k b → a = b) (auth : Bytes)
+    (p q : Pkt) (ts ts' : Nat) (hp : Scion.R2EpicInput.WF p ts) (hq : Scion.R2EpicInput.WF q ts')
+    (h : prf auth (macInputEpic p ts) = prf auth (macInputEpic q ts')) :
+    ts = ts' ∧ p.pktTs = q.pktTs ∧ p.pktCtr = q.pktCtr ∧ p.srcIA = q.srcIA ∧
+      p.srcLenBits = q.srcLenBits ∧ p.srcAddr = q.srcAddr ∧ p.payloadLen = q.payloadLen :=
+  Scion.R2EpicInput.macInputEpic_injective p q ts ts' hp hq (hinj _ _ _ h)
+
+/-- the hypothesis of `epic_mac_binds_fields` is satisfiable -/
+example : ∀ (k a b : Bytes), (fun (_ m : Bytes) => m) k a = (fun (_ m : Bytes) => m) k b → a = b :=
+  fun _ _ _ h => h
 
 /-- T3: the model's time constants are the ones in pkg/experimental/epic (regenerated from the source). -/
 theorem gen_consts :
